@@ -212,8 +212,10 @@ def registry(cls):
             registry_dict = getattr(cls, "__registry_dict")
 
             if key not in registry_dict:
-                registry_dict[key] = creator(cls, *args)
-                setattr(registry_dict[key], "registry_key", key)
+                # complete the instance before another thread can find it
+                instance = creator(cls, *args)
+                setattr(instance, "registry_key", key)
+                registry_dict[key] = instance
             return registry_dict[key]
 
         return staticmethod(constructor)
